@@ -106,7 +106,15 @@ pub mod fallback {
     /// Returns the largest integer less than or equal to `x`.
     #[inline]
     pub fn floor(x: f32) -> f32 {
-        (x as i64 - x.is_sign_negative() as i64) as f32
+        // Truncates towards zero
+        let t = x as i64 as f32;
+        // Only step down if truncation moved the value up, that is,
+        // not for negative integers or negative zero
+        if t > x {
+            t - 1.0
+        } else {
+            t
+        }
     }
     // Returns the least non-negative remainder of `x` (mod `m`).
     #[inline]
